@@ -65,13 +65,14 @@ mod v_iface_frag {
         };
     }
 
-    fn reasm_step<const LEN: usize>() {
+    fn reasm_step<const LEN: usize, const NMIN: usize, const NMAX: usize>() {
         let mut pa = PacketAssembler::<Key>::new();
         pa.key = Some(kani::any());
         let g: [u8; B] = kani::any();
         let t = any_le(B);
         kani::assume(t >= 1);
-        let n = any_le(if ASSEMBLER_MAX_SEGMENT_COUNT < 4 { ASSEMBLER_MAX_SEGMENT_COUNT } else { 4 });
+        let n = any_le(if ASSEMBLER_MAX_SEGMENT_COUNT < NMAX { ASSEMBLER_MAX_SEGMENT_COUNT } else { NMAX });
+        kani::assume(n >= NMIN || n == ASSEMBLER_MAX_SEGMENT_COUNT);
         let mut end = 0usize;
         prefix_range!(pa, n, end, 0);
         prefix_range!(pa, n, end, 1);
@@ -132,19 +133,50 @@ mod v_iface_frag {
     // @harness props=C12 cfg=KI4r tcfg=KI4 tier=q to=900 mem=8 unwind=12 opts=nomem covers=3 funcs=PacketAssembler::set_total_size;PacketAssembler::add;PacketAssembler::assemble;PacketAssembler::is_complete;PacketAssembler::reset;Assembler::add;Assembler::peek_front bounds=1-induction_step:_datagram_of_any_length_<=_reassembly_buffer_(64_quick,_256_thorough);_assembler_in_any_state_of_<=_4_recorded_ranges;_fragment_of_8_bytes_at_any_8-aligned_offset
     #[kani::proof]
     pub(crate) fn ipv4_reasm_step_8() {
-        reasm_step::<8>();
+        reasm_step::<8, 0, 4>();
     }
 
     // @harness props=C12 cfg=KI4r tcfg=KI4 tier=q to=900 mem=8 unwind=12 opts=nomem covers=3 funcs=PacketAssembler::set_total_size;PacketAssembler::add;PacketAssembler::assemble;PacketAssembler::is_complete;PacketAssembler::reset;Assembler::add;Assembler::peek_front bounds=1-induction_step:_datagram_of_any_length_<=_reassembly_buffer_(64_quick,_256_thorough);_assembler_in_any_state_of_<=_4_recorded_ranges;_fragment_of_24_bytes_at_any_8-aligned_offset
     #[kani::proof]
     pub(crate) fn ipv4_reasm_step_24() {
-        reasm_step::<24>();
+        reasm_step::<24, 0, 4>();
     }
 
     // @harness props=C12 cfg=KI4r tcfg=KI4 tier=q to=900 mem=8 unwind=12 opts=nomem covers=3 funcs=PacketAssembler::set_total_size;PacketAssembler::add;PacketAssembler::assemble;PacketAssembler::is_complete;PacketAssembler::reset;Assembler::add;Assembler::peek_front bounds=1-induction_step:_datagram_of_any_length_<=_reassembly_buffer_(64_quick,_256_thorough);_assembler_in_any_state_of_<=_4_recorded_ranges;_last_fragment_of_3_bytes_at_any_8-aligned_offset
     #[kani::proof]
     pub(crate) fn ipv4_reasm_step_3() {
-        reasm_step::<3>();
+        reasm_step::<3, 0, 4>();
+    }
+
+
+    // @harness props=C12 cfg=KI4r tier=q to=900 mem=8 unwind=12 opts=nomem,kissat covers=3 funcs=x bounds=experiment
+    #[kani::proof]
+    pub(crate) fn ipv4_reasm_x1() {
+        reasm_step::<8, 0, 4>();
+    }
+
+    // @harness props=C12 cfg=KI4r tier=q to=900 mem=8 unwind=12 opts=nomem covers=3 funcs=x bounds=experiment
+    #[kani::proof]
+    pub(crate) fn ipv4_reasm_x2() {
+        reasm_step::<8, 0, 3>();
+    }
+
+    // @harness props=C12 cfg=KI4r tier=q to=900 mem=8 unwind=12 opts=nomem covers=3 funcs=x bounds=experiment
+    #[kani::proof]
+    pub(crate) fn ipv4_reasm_x3() {
+        reasm_step::<8, 4, 4>();
+    }
+
+    // @harness props=C12 cfg=KI4 tier=q to=900 mem=8 unwind=12 opts=nomem covers=3 funcs=x bounds=experiment
+    #[kani::proof]
+    pub(crate) fn ipv4_reasm_x4() {
+        reasm_step::<8, 4, 4>();
+    }
+
+    // @harness props=C12 cfg=KI4 tier=q to=900 mem=8 unwind=12 opts=nomem covers=3 funcs=x bounds=experiment
+    #[kani::proof]
+    pub(crate) fn ipv4_reasm_x5() {
+        reasm_step::<8, 0, 3>();
     }
 
     // Liveness: the datagram g[0..t) lacks nothing but (part of) this fragment -- [0,a) and [b,t) are recorded,
@@ -307,13 +339,12 @@ mod v_iface_frag {
     }
 
     // ------------------------------------------------------------------ two datagrams interleaved
-    // GA (key 7) and GB (key 9), 16 bytes each in two fragments, through the two-slot set; 5 symbolic picks among the
-    // four fragments: each datagram comes out with its own bytes only.  (Keys are concrete: with symbolic keys the
-    // slot pointer returned by `get` is symbolic and the harness ran out of memory; key comparison itself is
-    // covered with symbolic keys by ipv4_reasm_set_slots and ipv4_reasm_key.)
-    // @harness props=C12 cfg=KI4 tier=q to=600 mem=8 unwind=12 opts=nomem covers=2 funcs=PacketAssemblerSet::get;PacketAssembler::set_total_size;PacketAssembler::add;PacketAssembler::assemble bounds=two_datagrams_of_16_bytes_in_2_fragments_each;_two_fixed_distinct_keys;_5_symbolic_picks;_2_reassembly_slots
-    #[kani::proof]
-    pub(crate) fn ipv4_reasm_two_datagrams() {
+    // GA (key 7) and GB (key 9), 16 symbolic bytes each in two fragments, through the two-slot set, in a fixed
+    // interleaved arrival order: each datagram comes out with its own bytes only.  (A harness with 5 symbolic picks
+    // through the set ran out of memory at 8 GB, with symbolic and with fixed keys: the slot pointer returned by
+    // `get` becomes symbolic.  Slot separation for symbolic keys: ipv4_reasm_set_slots; any order within one slot:
+    // ipv4_reasm_step_* and ipv4_reasm_any_order_*.)
+    fn two_datagrams(order: [u8; 4]) {
         let ga: [u8; 16] = kani::any();
         let gb: [u8; 16] = kani::any();
         let ka: Key = 7;
@@ -324,14 +355,10 @@ mod v_iface_frag {
         let mut mb = 0u8;
         let mut da = 0usize;
         let mut db = 0usize;
-        let mut inter = false;
         macro_rules! step {
-            () => {{
-                let pick: u8 = kani::any();
-                kani::assume(pick < 4);
-                crate::vdump!("pick {}", pick);
+            ($i:expr) => {{
+                let pick: u8 = order[$i];
                 let is_a = pick < 2;
-                inter = inter || (is_a && mb != 0) || (!is_a && ma != 0);
                 if is_a { ma |= 1 << pick; } else { mb |= 1 << (pick - 2); }
                 let res = match pick {
                     0 => offer(&mut set, ka, exp, &ga[0..8], 0, true),
@@ -363,13 +390,23 @@ mod v_iface_frag {
                 assert!(used == (ma != 0) as usize + (mb != 0) as usize, "prop:c12_reasm_slot_held_exactly_while_incomplete");
             }};
         }
-        step!();
-        step!();
-        step!();
-        step!();
-        step!();
-        kani::cover!(da == 1 && db == 1 && inter, "both datagrams delivered from interleaved fragments");
-        kani::cover!(da == 2, "the same datagram delivered twice when all of it was sent twice");
+        step!(0);
+        step!(1);
+        step!(2);
+        step!(3);
+        kani::cover!(da == 1 && db == 1, "both datagrams delivered from interleaved fragments");
+    }
+
+    // @harness props=C12 cfg=KI4 tier=q to=600 mem=6 unwind=12 opts=nomem covers=1 funcs=PacketAssemblerSet::get;PacketAssembler::set_total_size;PacketAssembler::add;PacketAssembler::assemble bounds=two_datagrams_of_16_symbolic_bytes_in_2_fragments_each;_fixed_keys;_arrival_order_A0,B0,B1,A1;_2_reassembly_slots
+    #[kani::proof]
+    pub(crate) fn ipv4_reasm_two_datagrams_abba() {
+        two_datagrams([0, 2, 3, 1]);
+    }
+
+    // @harness props=C12 cfg=KI4 tier=q to=600 mem=6 unwind=12 opts=nomem covers=1 funcs=PacketAssemblerSet::get;PacketAssembler::set_total_size;PacketAssembler::add;PacketAssembler::assemble bounds=two_datagrams_of_16_symbolic_bytes_in_2_fragments_each;_fixed_keys;_arrival_order_B1,A0,A1,B0_(last_fragments_first);_2_reassembly_slots
+    #[kani::proof]
+    pub(crate) fn ipv4_reasm_two_datagrams_baab() {
+        two_datagrams([3, 0, 1, 2]);
     }
 
     // ------------------------------------------------------------------ slots: keys, full set, expiry
